@@ -161,7 +161,7 @@ class App:
                     app.route(c['rule'], c['methods'], hd, name=nm, overwrite=ow)
                 elif via == 'shortcut':
                     m = c['methods'] if isinstance(c['methods'], str) else c['methods'][0]
-                    getattr(app, m.lower())(c['rule'], hd, name=nm, overwrite=ow)
+                    getattr(app, m.lower())(c['rule'], callback=hd, name=nm, overwrite=ow)
                 elif via == 'shortcut_deco':
                     m = c['methods'] if isinstance(c['methods'], str) else c['methods'][0]
                     getattr(app, m.lower())(c['rule'], name=nm, overwrite=ow)(hd)
@@ -818,3 +818,36 @@ def shrink_cmds(case):
         if c['op'] == 'dispatch' and len(c['path']) > 1:
             for k in range(len(c['path'])):
                 yield dict(case, cmds=cmds[:i] + [dict(c, path=c['path'][:k] + c['path'][k + 1:])] + cmds[i + 1:])
+
+
+STD_VERBS = ('DELETE', 'GET', 'HEAD', 'OPTIONS', 'PATCH', 'POST', 'PUT')
+
+
+def vary_add(rng, c):
+    """the same registration through another public API form (route decorator / callback, method shortcuts,
+    RadiRouter.add with meta, a plain str instead of a one-element method list)"""
+    c = dict(c)
+    ms = c['methods']
+    r = rng.random()
+    if r < 0.45:
+        return c
+    if isinstance(ms, list) and len(ms) == 1 and ms[0] in STD_VERBS and r < 0.65:
+        c['via'] = rng.choice(['shortcut', 'shortcut_deco'])
+        return c
+    if r < 0.8:
+        c['via'] = rng.choice(['route_deco', 'route_cb'])
+    elif r < 0.92:
+        c['via'] = 'router_add'
+        c['meta'] = rng.randrange(1, 5)
+    if isinstance(ms, list) and len(ms) == 1 and rng.random() < 0.4:
+        c['methods'] = ms[0]
+    return c
+
+
+def vary_hook(rng, c):
+    c = dict(c)
+    if c.get('partial'):
+        c['via'] = rng.choice([None, 'error404', 'int'])
+    else:
+        c['via'] = rng.choice([None, 'deco', 'router'])
+    return c
